@@ -463,7 +463,7 @@ func (st *c18State) sweep(worker int) {
 	}
 	// ---- G5: allowed bridge chains added by governance under several spellings of the name: bridging in
 	// from, and out to, a chain governance has accepted must work (and stop working once it is removed)
-	for i, name := range []string{"polygon", "Polygon", "ETHEREUM", "celo-alfajores"} {
+	for i, name := range []string{"polygon", "Polygon", "ETHEREUM", "celo-alfajores", "chain-" + strings.Repeat("x", 594)} {
 		c, err := newC18Chain(st, fmt.Sprintf("w%d-g5-%d", worker, i), nil, nil)
 		if err != nil {
 			continue
@@ -482,6 +482,22 @@ func (st *c18State) sweep(worker int) {
 		st.accepted++
 		st.cell(cfg)
 		sd, ed := time.Date(2020, 1, 1, 0, 0, 0, 0, time.UTC), time.Date(2021, 1, 1, 0, 0, 0, 0, time.UTC)
+		if len(name) > 32 {
+			// no validator limits the length of a chain name, but an origin tx source may not be that long: the
+			// bound batch comes in from "polygon", and bridging OUT to the long-named chain must work
+			cfg = fmt.Sprintf("allowed_bridge_chain=<%d-byte name> (gov)", len(name))
+			c.try(&basetypes.MsgAddAllowedBridgeChain{Authority: gov, ChainName: "polygon"})
+			r := c.e.Exec(eng.Tx{Msgs: []sdk.Msg{&basetypes.MsgBridgeReceive{Issuer: A[0], ClassId: cls,
+				Project:  &basetypes.MsgBridgeReceive_Project{ReferenceId: "G5", Jurisdiction: "US", Metadata: "m"},
+				Batch:    &basetypes.MsgBridgeReceive_Batch{Recipient: A[4], Amount: "100", StartDate: &sd, EndDate: &ed, Metadata: "m"},
+				OriginTx: &basetypes.OriginTx{Id: fmt.Sprintf("0x%064x", 500+i), Source: "polygon", Contract: fmt.Sprintf("0x%040x", 900+i)}}}, Tag: "setup"})
+			if r == nil || !r.OK {
+				continue
+			}
+			bd := r.Resps[0].(*basetypes.MsgBridgeReceiveResponse).BatchDenom
+			c.must(cfg, "bridge/long-chain-name", &basetypes.MsgBridge{Owner: A[4], Target: name, Recipient: fmt.Sprintf("0x%040x", 7), Credits: []*basetypes.Credits{{BatchDenom: bd, Amount: "10"}}})
+			continue
+		}
 		r := c.must(cfg, "bridge-receive", &basetypes.MsgBridgeReceive{Issuer: A[0], ClassId: cls,
 			Project:  &basetypes.MsgBridgeReceive_Project{ReferenceId: "G5", Jurisdiction: "US", Metadata: "m"},
 			Batch:    &basetypes.MsgBridgeReceive_Batch{Recipient: A[4], Amount: "100", StartDate: &sd, EndDate: &ed, Metadata: "m"},
